@@ -192,6 +192,11 @@ def binop (f : α → β → γ) (eq : γ → γ → Bool) (x : RLA α) (y : RLA
 /-- unary ufunc / ufunc with a scalar: applied to the run values, boundaries unchanged -/
 def mapValues (g : α → β) (r : RLA α) : Option (RLA β) := mk? r.events (r.values.map g)
 
+/-- `np.histogram(rla, bins, range)`: numpy's histogram of the RUN VALUES weighted by the run lengths; the
+content of the bin selected by `p` is the total length of the runs whose value falls into it -/
+def weightedCount (p : α → Bool) (r : RLA α) : Nat :=
+  (List.zipWith (fun (l : Nat) (v : α) => if p v then l else 0) (runLens r.events) r.values).sum
+
 /-- `sum()`: Σ run length · value -/
 def sum (r : RLA Int) : Int :=
   (List.zipWith (fun (l : Nat) (v : Int) => (l : Int) * v) (runLens r.events) r.values).sum
